@@ -2374,32 +2374,91 @@ def cwd(info):
     # dx:ax = sign extension of ax (cdq handles both operand sizes)
     return cdq(info)
 
-# XXX TODO
-def aaa_stub(info, *arg):
+# decimal adjustments.  Conditions on al are written on its bits:
+# a nibble is > 9 when bit 3 and (bit 2 or bit 1) are set.
+def nibble_gt9(x, low):
+    return ExprOp('&', x[low+3:low+4],
+                  ExprOp('|', x[low+2:low+3], x[low+1:low+2]))
+
+def aaa_aas(info, sign):
+    # aaa: ax += 0x106, aas: ax -= 0x106, when the low nibble of al is > 9
+    # or af is set; then the high nibble of al is cleared. af = cf = the
+    # condition (of, sf, zf, pf are undefined)
     e = []
-    e.append(ExprAff(eax[0:8], eax[0:8]))
-    e.append(ExprAff(nf, ExprInt32(0))) # sf
-    e.append(ExprAff(zf, ExprInt32(0)))
-    e.append(ExprAff(pf, ExprInt32(0)))
+    cond = ExprOp('|', nibble_gt9(r_al, 0), af)
+    adj = ExprOp('&', ExprOp(sign, r_ax, ExprInt16(0x106)), ExprInt16(0xff0f))
+    e.append(ExprAff(r_ax, ExprCond(cond, adj,
+                                   ExprOp('&', r_ax, ExprInt16(0xff0f)))))
+    e.append(ExprAff(af, cond))
+    e.append(ExprAff(cf, cond))
     return e
 
-def das(info, ):
-    return []
+def aaa(info):
+    return aaa_aas(info, '+')
+
+def aas(info):
+    return aaa_aas(info, '-')
+
+def daa_das(info, sign):
+    e = []
+    cond1 = ExprOp('|', nibble_gt9(r_al, 0), af)
+    # al > 0x99: high nibble > 9, or high nibble == 9 and low nibble > 9
+    hi_is_9 = ExprOp('&', ExprOp('&', r_al[7:8], r_al[4:5]),
+                     ExprOp('^', ExprOp('|', r_al[6:7], r_al[5:6]),
+                            ExprInt_from(cf, 1)))
+    cond2 = ExprOp('|', ExprOp('|', nibble_gt9(r_al, 4),
+                               ExprOp('&', hi_is_9, nibble_gt9(r_al, 0))),
+                   cf)
+    c = ExprOp(sign,
+               ExprOp(sign, r_al, ExprCond(cond1, ExprInt(uint8(6)), ExprInt(uint8(0)))),
+               ExprCond(cond2, ExprInt(uint8(0x60)), ExprInt(uint8(0))))
+    e.append(ExprAff(r_al, c))
+    e.append(ExprAff(af, cond1))
+    if sign == '+':
+        e.append(ExprAff(cf, cond2))
+    else:
+        # das: also the borrow of al - 6 (al < 6)
+        lt6 = ExprOp('^',
+                     ExprOp('|', ExprOp('|', ExprOp('|', r_al[7:8], r_al[6:7]),
+                                        ExprOp('|', r_al[5:6], r_al[4:5])),
+                            ExprOp('|', r_al[3:4],
+                                   ExprOp('&', r_al[2:3], r_al[1:2]))),
+                     ExprInt_from(cf, 1))
+        e.append(ExprAff(cf, ExprOp('|', cond2, ExprOp('&', cond1, lt6))))
+    e += update_flag_znp(c)
+    return e
 
 def daa(info):
-    return []
+    return daa_das(info, '+')
+
+def das(info):
+    return daa_das(info, '-')
+
+def imm_byte(a):
+    # the decoder hands a fixed 8-bit immediate over in the operand size
+    if isinstance(a, ExprInt):
+        return ExprInt(uint8(int(a.arg)))
+    return a[:8]
 
 def aam(info, a):
-    return []
+    # ah = al / imm8, al = al % imm8 (divide error when imm8 is 0)
+    e = []
+    a = imm_byte(a)
+    q = ExprOp('div8', ExprInt(uint8(0)), r_al, a)
+    r = ExprOp('rem8', ExprInt(uint8(0)), r_al, a)
+    e.append(ExprAff(r_ax, ExprCompose([(r, 0, 8), (q, 8, 16)])))
+    e += update_flag_znp(r)
+    return e
 
 def aad(info, a):
-    return []
+    # al = al + ah * imm8, ah = 0
+    e = []
+    a = imm_byte(a)
+    c = ExprOp('+', r_al, ExprOp('*', r_ah, a))
+    e.append(ExprAff(r_ax, ExprCompose([(c, 0, 8), (ExprInt(uint8(0)), 8, 16)])))
+    e += update_flag_znp(c)
+    return e
 
-def aas(info, ):
-    return []
-
-def aaa(info, ):
-    return []
 
 def bsf(info, a, b):
     e = []
@@ -2952,12 +3011,12 @@ mnemo_func = {'mov': mov,
               'cbw':cbw,
               'cwde':cbw,
               'cwd':cwd,
-              'aam':aaa_stub,
-              'aad':aaa_stub,
-              'aas':aaa_stub,
-              'aaa':aaa_stub,
-              'das':aaa_stub,
-              'daa':aaa_stub,
+              'aam':aam,
+              'aad':aad,
+              'aas':aas,
+              'aaa':aaa,
+              'das':das,
+              'daa':daa,
               'shrd':shrd,
               'stosb':stos,
               'stosw':stos,
